@@ -45,7 +45,6 @@ class SpecDataset(metaclass=Plugin):
 
     def __init__(self, xarray_dset):
         self.dset = xarray_dset
-        self._wrapper()
         self.supported_dims = [
             attrs.TIMENAME,
             attrs.SITENAME,
@@ -56,23 +55,21 @@ class SpecDataset(metaclass=Plugin):
         ]
 
     def __getattr__(self, attr):
+        if attr == "dset":
+            raise AttributeError(attr)
+        # Public SpecArray attributes are looked up on the current efth variable
+        if not attr.startswith("_") and attrs.SPECNAME in self.dset.data_vars:
+            if hasattr(SpecArray, attr):
+                return getattr(self.dset[attrs.SPECNAME].spec, attr)
         return getattr(self.dset, attr)
+
+    def __dir__(self):
+        names = set(super().__dir__())
+        names.update(n for n in dir(SpecArray) if not n.startswith("_"))
+        return sorted(names)
 
     def __repr__(self):
         return re.sub(r"<.+>", f"<{self.__class__.__name__}>", str(self.dset))
-
-    def _wrapper(self):
-        """Wraper around SpecArray methods.
-
-        Allows calling public SpecArray methods from SpecDataset.
-        For example:
-            self.spec.hs() becomes equivalent to self.efth.spec.hs()
-
-        """
-        for method_name in dir(self.dset[attrs.SPECNAME].spec):
-            if not method_name.startswith("_"):
-                method = getattr(self.dset[attrs.SPECNAME].spec, method_name)
-                setattr(self, method_name, method)
 
     def _check_and_stack_dims(self):
         """Ensure dimensions are suitable for dumping in some ascii formats.
